@@ -4,8 +4,11 @@ translate:   translator/extract_timearray.py (does __getitem__ clear the side ch
 prove:       lean/Midgard/Props/C04.lean (heap invariant by induction over all operation sequences)
 correspond:  operation sequences (bounded-exhaustive short ones + long random ones) on real arrays vs the
              model's heap machine; epochs are mapped to origin tags so alignment is equality of tag lists
-oracle:      alignment, length, index semantics on plain Python lists, immutability, hash/eq,
-             re-execution independence — on the real code only
+             (+ scale class and format of every array, the `__array_finalize__` calls every operation makes on the real
+             code — recorded by wrapping the hook here in the harness — against the model's notion of parent, and `==` /
+             agreement of everything `__hash__` reads for pairs of arrays against the model's `pyEq`/`hashKey`)
+oracle:      alignment, length, index semantics on plain Python lists, immutability, hash/eq, hash unchanged by later
+             reads, re-execution independence — on the real code only
 """
 from __future__ import annotations
 
@@ -25,6 +28,42 @@ def _imp():
     return Time
 
 
+CLS = {"utc": 0, "tai": 1, "gps": 2, "tt": 3, "tcg": 4, "tdb": 5, "tcb": 6, "ut1": 7}
+FMT = {"jd": 0, "mjd": 1, "gps_ws": 2}
+
+
+class HookLog:
+    """records every `__array_finalize__(self, obj)` the real code performs while `active` (the hook is wrapped here, in
+    the harness; /repo is not touched)"""
+
+    def __init__(self):
+        from midgard.data import _time
+
+        self.TB = _time.TimeBase
+        self.orig = self.TB.__dict__["__array_finalize__"]
+        self.events = []
+        self.active = False
+        log = self
+
+        def recorder(self_, obj):
+            if log.active and obj is not None:
+                plain = not isinstance(obj, log.TB)
+                log.events.append((None if plain else obj, (not plain) and getattr(obj, "_jd1_sliced", None) is not None, self_))
+            return log.orig(self_, obj)
+
+        self.recorder = recorder
+
+    def __enter__(self):
+        self.TB.__array_finalize__ = self.recorder
+        return self
+
+    def __exit__(self, *a):
+        self.TB.__array_finalize__ = self.orig
+
+
+HOOKS = None  # set by run()
+
+
 class World:
     """real arrays + lookup tables from float values to origin tags"""
 
@@ -35,6 +74,9 @@ class World:
         self.tab1, self.tab2, self.tabv = {}, {}, {}
         self.fresh = []
         self.shadowed = 0
+        self.cached_scale = 0
+        self.hooks = []      # per operation: the finalize calls seen on the real code (tokens)
+        self.hash0 = {}      # id(array) -> hash taken when the array came into being
         for bi, n in enumerate(sizes):
             base = 100 * bi
             if kind == "mjd":
@@ -44,7 +86,7 @@ class World:
                 week = np.array([1000.0 + base + k for k in range(n)])
                 sec = np.array([3600.0 * (k + 1) + 450.0 * (bi + 1) + 86400.0 * (k % 3) for k in range(n)])
                 t = Time(week, val2=sec, fmt="gps_ws", scale="gps")
-            self.fresh.append((base, n))
+            self.fresh.append((base, n, CLS[t.scale], FMT[t.fmt]))
             self.arrs.append(t)
             self.base_scale = t.scale
             # conversions are elementwise and deterministic: register the converted epochs under the same tags
@@ -73,12 +115,36 @@ class World:
         j1 = np.atleast_1d(np.asarray(x.jd1, dtype=float)) if x.jd1 is not None else []
         j2 = np.atleast_1d(np.asarray(x.jd2, dtype=float)) if x.jd2 is not None else []
         vals = [self.tabv.get((x.scale,) + r, -1) for r in self._rows(x)]
-        return (bool(scalar), vals, [self.tab1.get(float(a), -1) for a in j1], [self.tab2.get((x.scale, float(b)), -1) for b in j2])
+        return (bool(scalar), vals, [self.tab1.get(float(a), -1) for a in j1], [self.tab2.get((x.scale, float(b)), -1) for b in j2],
+                CLS.get(x.scale, 99), FMT.get(x.fmt, 99))
+
+    def first_index(self, obj):
+        for i, y in enumerate(self.arrs):
+            if y is obj:
+                return i
+        return None
+
+    def plain_tags(self, parts, r):
+        """tags of a plain ndarray that should hold the values of `parts` one after the other"""
+        rows = []
+        v = np.asarray(r)
+        pos = 0
+        for x in parts:
+            if x.fmt == "gps_ws":
+                n = len(np.asarray(x).reshape(-1, 3))
+                chunk = v.reshape(-1, 3)[pos:pos + n] if v.ndim == 2 else v.reshape(-1)[3 * pos:3 * (pos + n)].reshape(-1, 3)
+                rows += [self.tabv.get((x.scale, "ws", float(c[0])), -1) for c in chunk]
+            else:
+                n = np.asarray(x).size
+                chunk = v.reshape(-1)[pos:pos + n]
+                rows += [self.tabv.get((x.scale, "v", float(c)), -1) for c in chunk]
+            pos += n
+        return rows
 
 
 def show_obs(o):
     f = lambda l: ",".join(str(v) for v in l) if l else "[]"
-    return f"{int(o[0])}:{f(o[1])}:{f(o[2])}:{f(o[3])}"
+    return f"{int(o[0])}:{f(o[1])}:{f(o[2])}:{f(o[3])}:{o[4]}:{o[5]}"
 
 
 def sel_token(sel):
@@ -99,6 +165,14 @@ def op_token(op):
         return f"{k}:{op[1]}:{sel_token(op[2])}"
     if k == "insert":
         return f"insert:{op[1]}:{op[2]}:{op[3]}"
+    if k == "scale":
+        return f"scale:{op[1]}:{CLS[op[2]]}"
+    if k == "getbad":
+        return f"getbad:{op[1]}:n:{op[2][1]}" if op[2][0] == "n" else f"getbad:{op[1]}:{sel_token(op[2])}"
+    if k == "refused":
+        return f"refused:{op[1]}:{op[2]}"
+    if k == "concat":
+        return "concat:" + ",".join(str(i) for i in op[1]) + (":1" if op[2] else ":0")
     return f"{k}:{op[1]}"
 
 
@@ -129,10 +203,85 @@ def py_positions(sel, n):
     return out
 
 
-def apply_op(w: World, op, variant_rng):
-    """execute on the real arrays; returns ('A', obs, obj) | ('M', [obs]) | ('E',)"""
+def _shadow(w: World, t, target, variant_rng):
+    # an unrelated array holding the same numbers in another scale is converted first: what it computed
+    # must not be handed out for `t` (the conversion caches are keyed through __hash__/__eq__)
+    try:
+        sh_scale = "tt" if t.scale != "tt" else "tcg"
+        v = np.asarray(t)
+        if t.fmt == "gps_ws":
+            v = v.reshape(-1, 3)
+            sh = w.Time(v[:, 0].copy(), val2=v[:, 1].copy(), fmt="gps_ws", scale=sh_scale) if np.ndim(t.jd1) else \
+                w.Time(float(v[0, 0]), val2=float(v[0, 1]), fmt="gps_ws", scale=sh_scale)
+        elif t.fmt == "jd":
+            sh = w.Time(np.array(t.jd1), val2=np.array(t.jd2), fmt="jd", scale=sh_scale) if np.ndim(t.jd1) else \
+                w.Time(float(t.jd1), val2=float(t.jd2), fmt="jd", scale=sh_scale)
+        else:
+            sh = w.Time(v.copy() if np.ndim(v) else float(v), fmt=t.fmt, scale=sh_scale)
+        if np.array_equal(np.asarray(sh.jd1), np.asarray(t.jd1)) and np.array_equal(np.asarray(sh.jd2), np.asarray(t.jd2)):
+            w.shadowed += 1
+        getattr(sh, target)
+        sh.tai, sh.utc, sh.gps
+    except (ValueError, TypeError, IndexError):
+        pass
+
+
+def apply_op(w: World, op, variant_rng, record=False):
+    """execute on the real arrays; returns ('A', obs, obj) | ('M', [obs]) | ('P', tags) | ('E',) | ('U', why)
+    ('U': the real code did something the operation's letter does not allow for — never equal to a model answer).
+    With `record`, the `__array_finalize__` calls of the operation go to w.hooks."""
+    if not record or HOOKS is None:
+        return _apply_op(w, op, variant_rng)
+    HOOKS.events = []
+    n0 = len(w.arrs)
+    HOOKS.active = True
+    try:
+        res = _apply_op(w, op, variant_rng)
+    finally:
+        HOOKS.active = False
+    made = w.arrs[n0:]
+    toks = []
+    for parent, handover, self_ in HOOKS.events:
+        is_result = any(self_ is m for m in made)
+        if parent is None:
+            if is_result:
+                toks.append("P")
+        else:
+            pi = w.first_index(parent)
+            if pi is not None and pi < n0:
+                toks.append(f"T{pi}{'h' if handover else 'n'}" + ("" if is_result or res[0] in ("E", "P") else "!dropped"))
+            elif is_result:
+                toks.append("Ttmp")
+    HOOKS.events = []
+    if op[0] == "scale" and not toks and res[0] == "A" and res[2] is not w.arrs[op[1]]:
+        # `_to_scale` is memoised (lru_cache): a conversion done before hands back the array made then, no new one is made
+        toks = ["P"]
+        w.cached_scale += 1
+    w.hooks.append(",".join(toks) if toks else "-")
+    for m in made:
+        if id(m) not in w.hash0:
+            try:
+                w.hash0[id(m)] = hash(m)
+            except Exception as e:  # noqa
+                w.hash0[id(m)] = ("raises", type(e).__name__)
+    return res
+
+
+def _apply_op(w: World, op, variant_rng):
     k = op[0]
     arrs = w.arrs
+    if k == "concat":
+        parts = [arrs[i] for i in op[1]]
+        try:
+            if op[2]:
+                r = np.append(parts[0], parts[1])
+            else:
+                r = np.concatenate(parts)
+        except (IndexError, ValueError, TypeError) as e:
+            return ("U", f"concatenate raises {type(e).__name__}: {e} shapes {[np.shape(x) for x in parts]} fmts {[x.fmt for x in parts]}")
+        if hasattr(r, "jd1"):
+            return ("U", "concatenate gave a time array")
+        return ("P", w.plain_tags(parts, r))
     t = arrs[op[1]] if op[1] < len(arrs) else None
     if t is None:
         return ("E",)
@@ -141,16 +290,54 @@ def apply_op(w: World, op, variant_rng):
             i = op[2]
             r = t[np.int64(i)] if variant_rng.random() < 0.3 else t[i]
         elif k == "getsel":
-            r = t[np_index(op[2])]
-        elif k == "view":
-            v = variant_rng.randrange(4)
-            if w.kind == "mjd" and np.ndim(t) == 1:
-                r = [t.view(), t.T, t.reshape(len(t)), np.add(t, 0)][v] if t.size > 0 else t.view()
+            idx = np_index(op[2])
+            v = variant_rng.randrange(5)
+            if v == 0:
+                r = t[(idx,)]
+            elif v == 1:
+                r = t[idx, ...]
+            elif v == 2 and t.fmt == "gps_ws":
+                r = t[idx, :]
             else:
-                r = t.view()
+                r = t[idx]
+        elif k == "getbad":
+            first = op[2][1] if op[2][0] == "n" else np_index(op[2])
+            try:
+                r = t[first, 3] if t.fmt == "gps_ws" else t[first, 0]
+            except IndexError:
+                return ("E",)
+            return ("U", "a tuple index beyond the columns was accepted")
+        elif k == "view":
+            # ravel()/reshape(-1) of a strided or reversed array need a copy, which NumPy cannot fill in (the array
+            # __array_finalize__ hands back is frozen): only driven on contiguous arrays (memory layout is not in the model)
+            v = variant_rng.randrange(6 if np.asarray(t).flags.c_contiguous else 4)
+            if t.fmt != "gps_ws" and np.ndim(t) == 1:
+                r = [t.view, lambda: t.T, lambda: t.reshape(len(t)), lambda: np.add(t, 0), t.ravel, lambda: t.reshape(-1)][v]() if t.size > 0 else t.view()
+            else:
+                r = [t.view, lambda: np.add(t, 0), lambda: t.view(type(t))][v % 3]() if t.size > 0 else t.view()
+        elif k == "same":
+            if 1 not in np.shape(t) and variant_rng.random() < 0.5:
+                r = t.squeeze()
+            else:
+                r = getattr(t, t.scale)
+            if r is not t:
+                return ("U", "squeeze()/own scale did not give back the object itself")
+        elif k == "refused":
+            try:
+                if op[2] == "flatten":
+                    t.flatten()
+                elif op[2] == "astype":
+                    t.astype(float)
+                elif op[2] == "unique":
+                    np.unique(t)
+                else:
+                    np.sort(t)
+            except (ValueError, TypeError):
+                return ("E",)
+            return ("U", f"{op[2]} was not refused")
         elif k == "copy":
             v = variant_rng.randrange(3)
-            r = [t.copy(), copy.copy(t), copy.deepcopy(t)][v]
+            r = [t.copy, lambda: copy.copy(t), lambda: copy.deepcopy(t)][v]()
         elif k == "subset":
             idx = np_index(op[2])
             if isinstance(idx, slice):
@@ -160,30 +347,9 @@ def apply_op(w: World, op, variant_rng):
             b = arrs[op[3]]
             r = type(t).insert(t, op[2], b, {})
         elif k == "scale":
-            # to TAI, and from TAI back to the scale of the source arrays (for gps_ws that comes back in format jd:
-            # equal epochs in another format)
-            target = "tai" if t.scale != "tai" else w.base_scale
-            if variant_rng.random() < 0.5:
-                # an unrelated array holding the same numbers in another scale is converted first: what it computed
-                # must not be handed out for `t` (the conversion caches are keyed through __hash__/__eq__)
-                try:
-                    sh_scale = "tt" if t.scale != "tt" else "tcg"
-                    v = np.asarray(t)
-                    if t.fmt == "gps_ws":
-                        v = v.reshape(-1, 3)
-                        sh = w.Time(v[:, 0].copy(), val2=v[:, 1].copy(), fmt="gps_ws", scale=sh_scale) if np.ndim(t.jd1) else \
-                            w.Time(float(v[0, 0]), val2=float(v[0, 1]), fmt="gps_ws", scale=sh_scale)
-                    elif t.fmt == "jd":
-                        sh = w.Time(np.array(t.jd1), val2=np.array(t.jd2), fmt="jd", scale=sh_scale) if np.ndim(t.jd1) else \
-                            w.Time(float(t.jd1), val2=float(t.jd2), fmt="jd", scale=sh_scale)
-                    else:
-                        sh = w.Time(v.copy() if np.ndim(v) else float(v), fmt=t.fmt, scale=sh_scale)
-                    if np.array_equal(np.asarray(sh.jd1), np.asarray(t.jd1)) and np.array_equal(np.asarray(sh.jd2), np.asarray(t.jd2)):
-                        w.shadowed += 1
-                    getattr(sh, target)
-                    sh.tai, sh.utc, sh.gps
-                except (ValueError, TypeError, IndexError):
-                    pass
+            target = op[2]
+            if variant_rng.random() < 0.5 and target != t.scale:
+                _shadow(w, t, target, variant_rng)
             r = getattr(t, target)
         elif k == "iter":
             items = [x for x in t]
@@ -212,13 +378,22 @@ def gen_exhaustive_alphabet(n):
         A += [("getint", tgt, 1), ("getint", tgt, -1),
               ("getsel", tgt, ("s", 1, 3, 1)), ("getsel", tgt, ("s", None, None, -1)),
               ("getsel", tgt, ("m", "alt")), ("getsel", tgt, ("i", "rev2")),
-              ("view", tgt), ("copy", tgt), ("subset", tgt, ("m", "alt")), ("scale", tgt), ("iter", tgt)]
+              ("view", tgt), ("copy", tgt), ("subset", tgt, ("m", "alt")), ("scale", tgt), ("iter", tgt),
+              ("getbad", tgt, ("n", 1)), ("getbad", tgt, ("s", 1, 3, 1)), ("same", tgt), ("refused", tgt, "flatten")]
     A.append(("insert", 0, 1, 1))
+    A.append(("concat", [0, 1], False))
+    A.append(("refused", 0, "sort"))
     return A
+
+
+def scale_target(w: World, t):
+    return "tai" if t.scale != "tai" else w.base_scale
 
 
 def concretise(op, w: World, last):
     """resolve symbolic targets / selections against the current real arrays"""
+    if op[0] == "concat":
+        return op
     tgt = op[1]
     if tgt == "L":
         tgt = last
@@ -235,6 +410,10 @@ def concretise(op, w: World, last):
         return (op[0], tgt, op[2])
     if op[0] == "insert":
         return ("insert", tgt, op[2], op[3])
+    if op[0] == "scale":
+        return ("scale", tgt, scale_target(w, t))
+    if op[0] in ("getbad", "refused"):
+        return (op[0], tgt, op[2])
     return (op[0], tgt)
 
 
@@ -262,16 +441,36 @@ def random_op(rng, w: World):
     nonscalar = [i for i, t in enumerate(w.arrs) if not is_scalar(t)]
     anyarr = list(range(len(w.arrs)))
     k = rng.random()
-    if k < 0.14:
+    if k < 0.12:
         t = rng.choice(nonscalar)
         n = len(w.arrs[t].jd1)
         return ("getint", t, rng.randint(-n - 1, n))
-    if k < 0.40:
+    if k < 0.32:
         t = rng.choice(nonscalar)
         return ("getsel", t, random_sel(rng, len(w.arrs[t].jd1)))
-    if k < 0.55:
+    if k < 0.40:
+        # an index NumPy refuses after the jd parts have been sliced by its first entry (sometimes the first entry is
+        # itself out of range); also on single epochs
+        t = rng.choice(nonscalar if rng.random() < 0.9 else anyarr)
+        n = len(np.atleast_1d(w.arrs[t].jd1))
+        if rng.random() < 0.5:
+            return ("getbad", t, ("n", rng.randint(-n - 1, n)))
+        return ("getbad", t, random_sel(rng, n))
+    if k < 0.52:
         return ("view", rng.choice(anyarr))
-    if k < 0.65:
+    if k < 0.55:
+        return ("same", rng.choice(anyarr))
+    if k < 0.59:
+        return ("refused", rng.choice(anyarr), rng.choice(["flatten", "astype", "unique", "sort"]))
+    if k < 0.62:
+        a = rng.choice(nonscalar)
+        same = [i for i in nonscalar if w.arrs[i].fmt == w.arrs[a].fmt]
+        ts = [a] + [rng.choice(same) for _ in range(rng.randint(1, 2))]
+        # np.append ravels its second argument: refused when that needs a copy (three-column layout, strided or reversed
+        # slices: the copy would go into an array __array_finalize__ has frozen) -- memory layout is not in the model
+        return ("concat", ts, len(ts) == 2 and w.arrs[a].fmt != "gps_ws" and np.asarray(w.arrs[ts[1]]).flags.c_contiguous
+                and rng.random() < 0.6)
+    if k < 0.68:
         return ("copy", rng.choice(anyarr))
     if k < 0.75:
         t = rng.choice(nonscalar)
@@ -285,7 +484,8 @@ def random_op(rng, w: World):
         n = len(w.arrs[a].jd1)
         return ("insert", a, rng.randint(-n, n) if rng.random() < 0.9 else n + 2, b)
     if k < 0.90:
-        return ("scale", rng.choice(anyarr))
+        t = rng.choice(anyarr)
+        return ("scale", t, scale_target(w, w.arrs[t]))
     if k < 0.97:
         t = rng.choice(nonscalar)
         return ("iter", t)
@@ -294,7 +494,7 @@ def random_op(rng, w: World):
 
 def check_object(ctx: Ctx, w: World, x, where, case):
     """oracle on one derived array"""
-    sc, v, a, b = w.obs(x)
+    sc, v, a, b = w.obs(x)[:4]
     if not (v == a == b):
         ctx.violate("misaligned:" + where, f"values {v}, jd1 {a}, jd2 {b} are not the same epochs after {where}", case)
         return
@@ -346,13 +546,12 @@ def run_sequence(ctx: Ctx, Time, kind, sizes, ops_symbolic, rng, exhaustive):
             op = sop(w)
         else:
             op = concretise(sop, w, last)
-            t = w.arrs[op[1]]
-            if is_scalar(t) and op[0] in ("getint", "getsel", "subset", "iter", "insert"):
+            if op[0] != "concat" and is_scalar(w.arrs[op[1]]) and op[0] in ("getint", "getsel", "subset", "iter", "insert"):
                 op = ("view", op[1])
         ops.append(op)
         nbefore = len(w.arrs)
         state = rng.getstate()
-        r = apply_op(w, op, rng)
+        r = apply_op(w, op, rng, record=True)
         results.append((op, r, state))
         if r[0] == "A":
             outs.append("A:" + show_obs(r[1]))
@@ -361,12 +560,56 @@ def run_sequence(ctx: Ctx, Time, kind, sizes, ops_symbolic, rng, exhaustive):
             outs.append("M:" + ";".join(show_obs(o) for o in r[1]))
             if r[1]:
                 last = len(w.arrs) - 1
+        elif r[0] == "P":
+            outs.append("P:" + (",".join(str(v) for v in r[1]) if r[1] else "[]"))
+            assert len(w.arrs) == nbefore
+        elif r[0] == "U":
+            outs.append("U:" + r[1].replace(" ", "_"))
+            assert len(w.arrs) == nbefore
         else:
             outs.append("E")
             assert len(w.arrs) == nbefore
+        ctx.count(f"out:{op[0]}:{r[0]}")
+        if op[0] == "getbad":
+            tt = w.arrs[op[1]]
+            if is_scalar(tt):
+                ctx.count("getbad:single-epoch-target")
+            else:
+                n = len(tt.jd1)
+                ok = (-n <= op[2][1] < n) if op[2][0] == "n" else py_positions(op[2], n) is not None
+                ctx.count("getbad:jd-parts-sliced-then-refused" if ok else "getbad:first-entry-refused")
+    # pairs of arrays for == / hash: arrays holding the same epochs (by whatever path they were derived), and random ones
+    groups = {}
+    for i, x in enumerate(w.arrs):
+        if w.first_index(x) == i:
+            o = w.obs(x)
+            groups.setdefault((tuple(o[2]), tuple(o[3])), []).append(i)
+    pairs = []
+    for key, idx in groups.items():
+        if len(key[0]) > 0:
+            pairs += list(zip(idx, idx[1:]))
+    if len(pairs) > 12:
+        pairs = rng.sample(pairs, 12)
+    for _ in range(4):
+        pairs.append((rng.randrange(len(w.arrs)), rng.randrange(len(w.arrs))))
+    real_pairs = []
+    for i, j in pairs:
+        a, b = w.arrs[i], w.arrs[j]
+        try:
+            e = "1" if bool(a == b) else "0"
+        except Exception:  # noqa
+            e = "X"
+        try:
+            hq = hash(a) == hash(b)
+        except Exception:  # noqa
+            hq = None
+        real_pairs.append((e, hq))
     case = {"kind": kind, "sizes": list(sizes), "ops": [op_token(o) for o in ops]}
-    line = "c04 run src " + " ".join(f"F:{b}:{n}" for b, n in w.fresh) + " | " + " ".join(op_token(o) for o in ops)
-    model = ctx.driver.ask1(line)
+    line = ("c04 run src " + " ".join(f"F:{b}:{n}:{c}:{f}" for b, n, c, f in w.fresh) + " | " + " ".join(op_token(o) for o in ops)
+            + " | " + " ".join(f"{i}:{j}" for i, j in pairs))
+    answer = ctx.driver.ask1(line)
+    parts = answer.split(" # ")
+    model = parts[0]
     impl = "|".join(outs)
     ctx.case(case, nontrivial=len(ops) > 1)
     ctx.count(f"len={min(len(ops), 10)}{'+' if len(ops) > 10 else ''}")
@@ -374,6 +617,40 @@ def run_sequence(ctx: Ctx, Time, kind, sizes, ops_symbolic, rng, exhaustive):
         ctx.count("op:" + o[0])
     if model != impl:
         ctx.disagree("operation sequence vs heap machine", case, model, impl)
+    elif len(parts) == 3:
+        # the __array_finalize__ calls the real code made against the model's notion of parent (heap positions of one object
+        # that sits in the list twice are named by the first)
+        def canon(tok):
+            if tok.startswith("T") and tok[1:-1].isdigit():
+                fi = w.first_index(w.arrs[int(tok[1:-1])])
+                return f"T{fi}{tok[-1]}"
+            return tok
+
+        mh = "|".join(",".join(canon(t) for t in h.split(",")) for h in parts[1].split("|")) if ops else ""
+        ih = "|".join(w.hooks)
+        for h in w.hooks:
+            for t in h.split(","):
+                ctx.count("hook:" + ("T.h" if t.endswith("h") else "T.n" if t.endswith("n") else t))
+        if mh != ih:
+            ctx.disagree("__array_finalize__ calls (parent, hand-over present) vs the model's hooks", case, mh, ih)
+        meq = parts[2].split() if parts[2].strip() else []
+        for (i, j), (e, hq), m in zip(pairs, real_pairs, meq):
+            ctx.count(f"pair:eq={e}" + (":other-fmt" if e == "1" and w.arrs[i].fmt != w.arrs[j].fmt else ""))
+            if e != m[0]:
+                ctx.disagree("a == b vs the model's pyEq (class, shape, jd parts)", dict(case, pair=[i, j]), m[0], e)
+            elif m[1] == "1" and hq is not True:
+                ctx.disagree("hash(a) == hash(b) whenever everything __hash__ reads agrees", dict(case, pair=[i, j]), "equal hashes", str(hq))
+    else:
+        ctx.disagree("driver answer", case, answer, impl)
+    # every array hashes as it did when it came into being (hash_stable_under_reads)
+    for x in w.arrs:
+        h0 = w.hash0.get(id(x))
+        if h0 is not None and not isinstance(h0, tuple):
+            try:
+                if hash(x) != h0:
+                    ctx.violate("hash-changed", "the hash of a time array changed after later reads", case)
+            except Exception as e:  # noqa
+                ctx.violate("hash-raises", f"hash() raises {type(e).__name__} after later reads", case)
     # ---------------- oracle ----------------
     for x in w.arrs:
         check_object(ctx, w, x, "history", case)
@@ -413,13 +690,49 @@ def run_sequence(ctx: Ctx, Time, kind, sizes, ops_symbolic, rng, exhaustive):
             if not eq and len(key[2]) > 0:
                 ctx.violate("eq-same-epochs", "two arrays with identical jd parts compare unequal", case)
     ctx.count("cross-scale-shadow-same-jd", w.shadowed) if w.shadowed else None
+    ctx.count("scale-conversion-from-the-memo(no new array)", w.cached_scale) if w.cached_scale else None
     if exhaustive is False and rng.random() < 0.3:
         for x in rng.sample(w.arrs, min(3, len(w.arrs))):
             check_immutable(ctx, x, case)
     return w
 
 
+def path_sequence(rng):
+    """the same epochs reached along different derivation paths: t[s1][s2], t[[composed]], t.subset([composed]), copies,
+    views, the way to TAI and back — the pairs these make are what `sel_of_sel_eq_direct`, `copy_view_eq` and
+    `scale_round_trip_eq` speak about"""
+    def two_sels(w):
+        n = len(w.arrs[0].jd1)
+        for _ in range(50):
+            s1, s2 = random_sel(rng, n), None
+            p1 = py_positions(s1, n)
+            if p1 is None:
+                continue
+            s2 = random_sel(rng, len(p1))
+            p2 = py_positions(s2, len(p1))
+            if p2 is not None:
+                return s1, s2, [p1[q] for q in p2]
+        return ("s", None, None, 1), ("s", None, None, 1), list(range(n))
+
+    st = {}
+
+    def first(w):
+        st["s"] = two_sels(w)
+        return ("getsel", 0, st["s"][0])
+
+    return [first,
+            lambda w: ("getsel", len(w.arrs) - 1, st["s"][1]),
+            lambda w: ("getsel", 0, ("i", st["s"][2])),
+            lambda w: ("subset", 0, ("i", st["s"][2])),
+            lambda w: ("copy", len(w.arrs) - 3),
+            lambda w: ("view", len(w.arrs) - 3),
+            lambda w: ("scale", len(w.arrs) - 2, "tai"),
+            lambda w: ("scale", len(w.arrs) - 1, w.base_scale),
+            lambda w: ("same", len(w.arrs) - 1)]
+
+
 def run(ctx: Ctx):
+    global HOOKS
     from translator import extract_timearray
 
     changed = extract_timearray.generate()
@@ -427,12 +740,25 @@ def run(ctx: Ctx):
     ctx.proof = common.prove("C04")
     Time = _imp()
     rng = ctx.rng
-    ctx.rule = ("operation sequences over {t[i], t[a:b:c], t[mask], t[int list], view/T/reshape/ufunc, copy/copy.copy/deepcopy, "
-                "subset, insert, .tai, iterate, refused assignment}: all sequences up to length L over a 23-letter alphabet "
-                "(targets: base array / last result) for 1-column (mjd) and 3-column (gps_ws) arrays, plus random sequences up to "
-                "length 40 over arrays of length 0..6; non-trivial = more than one operation; distinct by the operation list")
-    ctx.trusted += ["translator/extract_timearray.py (AST facts about __getitem__/__array_finalize__)",
-                    "NumPy's subclass hook order (which operations call __array_finalize__ with which parent) is modelled, validated by the correspondence"]
+    ctx.rule = ("operation sequences over {t[i], t[a:b:c], t[mask], t[int list] (also as one-entry tuples / with Ellipsis / ':'), "
+                "tuple indices NumPy refuses after the jd parts were sliced (t[first, 0], g[first, 3]), view/T/reshape/ravel/ufunc, "
+                "squeeze()/own scale (the object itself), flatten/astype/np.unique/np.sort (refused), np.concatenate/np.append (plain "
+                "ndarray), copy/copy.copy/deepcopy, subset, insert, scale conversion there and back, iterate, refused assignment}: "
+                "all sequences up to length L over a 33-letter alphabet (targets: base array / last result) for 1-column (mjd) and "
+                "3-column (gps_ws) arrays, plus random sequences up to length 40 over arrays of length 0..6 and derivation-path "
+                "sequences (t[s1][s2] / t[[composed]] / subset / copy / view / TAI and back); for every operation the "
+                "__array_finalize__ calls of the real code are recorded and compared with the model's, for pairs of arrays == and "
+                "hash agreement; non-trivial = more than one operation; distinct by the operation list")
+    ctx.trusted += ["translator/extract_timearray.py (AST facts about __getitem__/__array_finalize__/__hash__/__eq__)",
+                    "that NumPy calls __array_finalize__ as recorded here for the operations driven (the hook calls of every operation of "
+                    "every generated history are compared with the model's; operations never driven are not covered)"]
+    HOOKS = HookLog()
+    with HOOKS:
+        _run_all(ctx, Time, rng)
+    HOOKS = None
+
+
+def _run_all(ctx: Ctx, Time, rng):
     ctx.assumptions += ["epochs of the source arrays are pairwise distinct so that values, jd1 and jd2 can each be mapped to origin tags"]
     L = 3 if ctx.thorough else 2
     alphabet = gen_exhaustive_alphabet(4)
@@ -456,6 +782,10 @@ def run(ctx: Ctx):
         length = rng.randint(3, 40)
         seq = [(lambda w, _r=rng: random_op(_r, w)) for _ in range(length)]
         run_sequence(ctx, Time, kind, sizes, seq, rng, False)
+    # derivation paths to the same epochs
+    for _ in range(ctx.budget(120, 3000)):
+        kind = rng.choice(["mjd", "gps_ws"])
+        run_sequence(ctx, Time, kind, (rng.randint(2, 6), rng.randint(1, 3)), path_sequence(rng), rng, False)
     ctx.traces = ctx.evaluations
 
 
